@@ -103,6 +103,33 @@ func progUniqueCtx(ctx string, base Beh) *LazyProgram {
 	return p
 }
 
+// progPreDecide: a decision is taken *before anything is drawn*, keyed by the invocation's index
+// (user code with a counter: "skip the first call"), then one unique draw and the usual decision.
+// A test case that skips here consumes no data at all.
+func progPreDecide() *LazyProgram {
+	return &LazyProgram{
+		Name: "pre-decision-then-unique-draw",
+		Body: func(t *rapid.T, e *Env) {
+			ctxLive(t)
+			// the counter-based skipping happens only while fresh cases are generated: the failing case and all
+			// its replays behave identically, so the property is reproducible and "flaky" would be wrong
+			if b := BPass; e.InSearchPhase() {
+				b = e.Decide("pre", fmt.Sprint(e.cur.Idx))
+				_ = b
+			}
+			if e.InSearchPhase() && len(e.cur.Decisions) > 0 && e.cur.Decisions[len(e.cur.Decisions)-1].Beh.Skips() {
+				e.cur.Skipped = true
+				t.Skip("skipped before drawing anything")
+			}
+			x := rapid.Uint64().Draw(t, "x")
+			e.noteDraw("x", x)
+			e.cur.Draws = fmt.Sprint(x)
+			e.Do(t, "body", fmt.Sprint(x))
+		},
+		Base: func(ctx, d string) Beh { return BPass },
+	}
+}
+
 // progThreshold: x := Int16(); fails at site A iff x >= T (in the body).
 func progThreshold(T int16) *LazyProgram {
 	return &LazyProgram{
@@ -294,6 +321,30 @@ func rejectionProgs() []*LazyProgram {
 				}
 				return n >= 3
 			}, BErrorf),
+	}
+}
+
+// progCaseCollidingActions: a state machine whose action names differ only by case; the trace of actions is the key.
+func progCaseCollidingActions() *LazyProgram {
+	return &LazyProgram{
+		Name: "machine(put,Put,PUT,get)",
+		Body: func(t *rapid.T, e *Env) {
+			var tr []string
+			t.Repeat(map[string]func(*rapid.T){
+				"put": func(t *rapid.T) { tr = append(tr, fmt.Sprintf("put%d", rapid.IntRange(0, 3).Draw(t, "v"))) },
+				"Put": func(t *rapid.T) { tr = append(tr, fmt.Sprintf("Put%v", rapid.Bool().Draw(t, "v"))) },
+				"PUT": func(t *rapid.T) { tr = append(tr, "PUT") },
+				"get": func(t *rapid.T) { tr = append(tr, "get") },
+			})
+			e.cur.Draws = strings.Join(tr, ",")
+			e.Do(t, "body", e.cur.Draws)
+		},
+		Base: func(ctx, d string) Beh {
+			if strings.Count(d, "PUT") >= 2 && strings.Contains(d, "Puttrue") {
+				return BFatalA
+			}
+			return BPass
+		},
 	}
 }
 
